@@ -353,6 +353,10 @@ pub fn run_prop(prop: &Prop, tier: Tier, only_part: Option<&str>) -> i32 {
     std::fs::create_dir_all(&dir).ok();
     let path = dir.join(format!("{}.json", prop.id));
     std::fs::write(&path, serde_json::to_string_pretty(&ev).unwrap() + "\n").expect("write evidence");
+    // <id>.json is rewritten by every run; keep the last run of each tier as well
+    let per_tier = dir.join("by_tier").join(format!("{}.{}.json", prop.id, tier_s));
+    std::fs::create_dir_all(per_tier.parent().unwrap()).ok();
+    std::fs::write(&per_tier, serde_json::to_string_pretty(&ev).unwrap() + "\n").ok();
   }
   eprintln!(
     "[{}] tier={} runs={} evals={} states={} nontrivial={} outcomes={} exhaustive={} wall={:.1}s exit={}",
